@@ -69,19 +69,36 @@ impl P for Vec<(usize, usize, f64)> { fn p(&self) -> Value { let mut xs = vec![]
 impl<A: P, C: P> P for (A, C) { fn p(&self) -> Value { json!({"v": [self.0.p()["v"].clone(), self.1.p()["v"].clone()], "h": format!("{}{}", self.0.p()["h"].as_str().unwrap(), self.1.p()["h"].as_str().unwrap())}) } }
 impl P for Newton<f64> { fn p(&self) -> Value { let (a, b, c, d) = self.parameters(); pj(&[c], &[a, b, d]) } }
 
+// ------------------------------------------------------------------ control of operand construction
+/// prep/old: how the receiver is AGED (built at the old size, brought to the tuple's size by a size-changing
+/// operation); rhs/sc/mixed: operand VARIANT (second operand content, scalar code, entries with negatives, 0, -0.0)
+#[derive(Clone, Default)]
+struct Ctl { prep: String, old: Vec<usize>, rhs: String, sc: usize, mixed: bool }
+static CTL: Mutex<Option<Ctl>> = Mutex::new(None);
+static PREPS: Mutex<BTreeSet<String>> = Mutex::new(BTreeSet::new());
+fn ctl() -> Ctl { CTL.lock().unwrap().clone().unwrap_or_default() }
+fn aged(ty: &str) -> Option<Ctl> { let c = ctl(); if c.prep.starts_with(ty) { PREPS.lock().unwrap().insert(c.prep.clone()); Some(c) } else { None } }
+const MIX: [f64; 8] = [-3.0, 0.0, -0.0, 2.0, -1.0, 5.0, -0.0, 4.0];
+fn el(s: i64, k: usize) -> f64 { if ctl().mixed { MIX[(k + s as usize) % 8] } else { (s + k as i64) as f64 } }
+fn scal(default: f64) -> f64 { match ctl().sc { 0 => default, 1 => 0.0, 2 => -0.0, 3 => 1.0, 4 => -1.0, 5 => 2.0, _ => 0.5 } }
+fn alias() -> bool { ctl().rhs == "alias" }
+fn rhs_kind() -> String { ctl().rhs }
+
 // ------------------------------------------------------------------ operands (integer data, determined by the sizes)
-fn vecf(n: usize, s: i64) -> V { Vector::create((0..n).map(|k| (s + k as i64) as f64).collect()) }
-fn matf(r: usize, c: usize, s: i64) -> M { let mut m = M::new(r, c, 0.0); for i in 0..r { for j in 0..c { m[(i, j)] = (s + (i * c + j) as i64) as f64; } } m }
+fn vecf(n: usize, s: i64) -> V { Vector::create((0..n).map(|k| el(s, k)).collect()) }
+fn matf(r: usize, c: usize, s: i64) -> M { let mut m = M::new(r, c, 0.0); for i in 0..r { for j in 0..c { m[(i, j)] = el(s, i * c + j); } } m }
 /// strictly diagonally dominant (no zero pivot, nonsingular)
 fn matdd(r: usize, c: usize) -> M { let mut m = M::new(r, c, 0.0); for i in 0..r { for j in 0..c { m[(i, j)] = if i == j { 16.0 + i as f64 } else { 1.0 + ((i + 2 * j) % 2) as f64 }; } } m }
 fn band(n: usize, m1: usize, m2: usize, s: i64) -> B {
     let mut b = B::new(n, m1, m2, 0.0);
-    for i in 0..n { for j in 0..n { if j <= i + m2 && i <= j + m1 { b[(i, j)] = if i == j { 32.0 + (s + i as i64) as f64 } else { 1.0 + ((s as usize + i + 2 * j) % 3) as f64 }; } } }
+    let mixed = ctl().mixed;
+    for i in 0..n { for j in 0..n { if j <= i + m2 && i <= j + m1 { b[(i, j)] = if mixed { el(s, i * n + j) } else if i == j { 32.0 + (s + i as i64) as f64 } else { 1.0 + ((s as usize + i + 2 * j) % 3) as f64 }; } } }
     b
 }
 fn tri(n: usize, s: i64) -> T3 {
     if n == 0 { return T3::empty(); }
-    T3::with_vecs((0..n - 1).map(|k| (s + k as i64) as f64).collect(), (0..n).map(|k| (16 + s + k as i64) as f64).collect(), (0..n - 1).map(|k| (s + 2 + k as i64) as f64).collect())
+    let mixed = ctl().mixed;
+    T3::with_vecs((0..n - 1).map(|k| el(s, k)).collect(), (0..n).map(|k| if mixed { el(s + 3, k) } else { (16 + s + k as i64) as f64 }).collect(), (0..n - 1).map(|k| el(s + 2, k)).collect())
 }
 /// square: symmetric positive definite tridiagonal pattern; otherwise diagonal entries plus a corner
 fn sparse(r: usize, c: usize) -> S {
@@ -92,8 +109,98 @@ fn sparse(r: usize, c: usize) -> S {
 }
 fn mesh1(nn: usize, nv: usize) -> M1 { let mut m = M1::new(vecf(nn, 0), nv); for k in 0..nn { for v in 0..nv { m[k][v] = (1 + k * nv + v) as f64; } } m }
 fn mesh2(nx: usize, ny: usize, nv: usize) -> M2 { let mut m = M2::new(vecf(nx, 0), vecf(ny, 10), nv); for i in 0..nx { for j in 0..ny { for v in 0..nv { m[(i, j)][v] = (1 + (i * ny + j) * nv + v) as f64; } } } m }
-fn poly(len: usize, s: i64) -> Pl { Pl::new((0..len).map(|k| (s + k as i64) as f64).collect()) }
+fn poly(len: usize, s: i64) -> Pl { Pl::new((0..len).map(|k| el(s, k)).collect()) }
 fn cvec(n: usize, s: i64) -> Vector<Cmplx> { Vector::create((0..n).map(|k| Cmplx::new((s + k as i64) as f64, (k as i64 - s) as f64)).collect()) }
+// ------------------------------------------------------------------ aged receivers: old size -> size-changing operation -> new size
+// (loops are counted, never "while size() > n": a stale size must not hang the harness; the content is then
+//  rewritten through in-range raw index writes so that it equals the fresh operand's)
+fn a_vec(n: usize, s: i64) -> V {
+    let c = match aged("vec.") { Some(c) => c, None => return vecf(n, s) };
+    let o = c.old[0]; let mut v = vecf(o, s + 50);
+    match c.prep.as_str() {
+        "vec.resize" => v.resize(n),
+        "vec.pop_push" => { for _ in n..o { v.pop(); } for _ in o..n { v.push(0.0); } }
+        "vec.clear" => v.clear(),
+        _ => { v.clear(); for _ in 0..n { v.insert(0, 0.0); } }
+    }
+    for k in 0..n { v[k] = el(s, k); }
+    v
+}
+fn a_mat(r: usize, c: usize, s: i64, dd: bool) -> M {
+    let f = if dd { matdd(r, c) } else { matf(r, c, s) };
+    let ct = match aged("mat.") { Some(ct) => ct, None => return f };
+    let (or, oc) = (ct.old[0], ct.old[1]); let mut m = matf(or, oc, s + 50);
+    match ct.prep.as_str() {
+        "mat.resize" => m.resize(r, c),
+        "mat.delete_row" => { for k in r..or { m.delete_row(if k % 2 == 0 { 0 } else { m.rows() - 1 }); } }
+        "mat.transpose_in_place" => m.transpose_in_place(),
+        "mat.clear" => m.clear(),
+        _ => { m.clear(); m.resize(r, c); }
+    }
+    for i in 0..r { for j in 0..c { m[(i, j)] = f[(i, j)]; } }
+    m
+}
+fn a_band(n: usize, m1: usize, m2: usize, s: i64) -> B {
+    let f = band(n, m1, m2, s);
+    let c = match aged("band.") { Some(c) => c, None => return f };
+    let mut b = band(c.old[0], c.old[1], c.old[2], s + 50);
+    b.resize(n, m1, m2); b.fill(0.0);
+    for i in 0..n { for j in 0..n { if j <= i + m2 && i <= j + m1 { b[(i, j)] = f[(i, j)]; } } }
+    b
+}
+fn a_tri(n: usize, s: i64) -> T3 {
+    let f = tri(n, s);
+    let c = match aged("tri.") { Some(c) => c, None => return f };
+    let mut t = tri(c.old[0], s + 50);
+    t.resize(n);
+    for i in 0..n { t[(i, i)] = f[(i, i)]; if i + 1 < n { t[(i, i + 1)] = f[(i, i + 1)]; t[(i + 1, i)] = f[(i + 1, i)]; } }
+    t
+}
+fn a_sparse(r: usize, c: usize) -> S {
+    let ct = match aged("sparse.") { Some(ct) => ct, None => return sparse(r, c) };
+    if ct.prep == "sparse.transpose" { return sparse(c, r).transpose(); }
+    let mut a = sparse(r, c);
+    if r > 0 && c > 0 { a.insert(r - 1, 0, 5.0); a.insert(0, c - 1, 5.0); a.insert(0, 0, 9.0); a.insert(r / 2, c / 2, 7.0); }
+    a
+}
+fn a_poly(len: usize, s: i64) -> Pl {
+    let c = match aged("poly.") { Some(c) => c, None => return poly(len, s) };
+    let o = c.old[0];
+    let mut p = match c.prep.as_str() {
+        "poly.push" => { let mut p = poly(o, s + 50); for _ in o..len { p.coeffs().push(0.0); } p }
+        "poly.pop" => { let mut p = poly(o, s + 50); for _ in len..o { p.coeffs().pop(); } p }
+        _ => { let mut d: Vec<f64> = (0..len).map(|k| 1.0 + k as f64).collect(); for _ in len..o { d.push(0.0); } let mut p = Pl::new(d); p.trim(); p }
+    };
+    for k in 0..len { p[k] = el(s, k); }
+    p
+}
+fn scratch(name: &str) -> String {
+    let d = format!("{}/../out/C20", env!("CARGO_MANIFEST_DIR")); std::fs::create_dir_all(&d).unwrap(); format!("{}/{}", d, name)
+}
+fn mesh_file(nn: usize, nv: usize, f: &dyn Fn(usize, usize) -> i64) -> String {
+    let path = scratch("mesh1_read.txt"); let mut txt = String::new();
+    for k in 0..nn { txt += &format!("{}", k); for v in 0..nv { txt += &format!(" {}", f(k, v)); } txt += "\n"; }
+    std::fs::write(&path, txt).unwrap(); path
+}
+fn a_mesh1(nn: usize, nv: usize) -> M1 {
+    let c = match aged("mesh1.") { Some(c) => c, None => return mesh1(nn, nv) };
+    let mut m = mesh1(c.old[0], nv);
+    m.read(&mesh_file(nn, nv, &|k, v| (1 + k * nv + v) as i64));
+    m
+}
+
+// ------------------------------------------------------------------ second operands of the variants
+fn rhs_vec(a: &V, n: usize, s: i64) -> V { match rhs_kind().as_str() {
+    "same" | "alias" if a.size() == n => V::create(a.vec.clone()), "zero" => V::create(vec![0.0; n]), "eye" => V::create(vec![1.0; n]), _ => vecf(n, s) } }
+fn rhs_mat(r: usize, c: usize, s: i64, sa: i64) -> M { match rhs_kind().as_str() {
+    "same" | "alias" => matf(r, c, sa), "zero" => M::new(r, c, 0.0), "eye" => { let mut m = M::new(r, c, 0.0); for i in 0..r.min(c) { m[(i, i)] = 1.0; } m } _ => matf(r, c, s) } }
+fn rhs_band(n: usize, m1: usize, m2: usize, s: i64, sa: i64) -> B { match rhs_kind().as_str() {
+    "same" | "alias" => band(n, m1, m2, sa), "zero" => B::new(n, m1, m2, 0.0), "eye" => { let mut b = B::new(n, m1, m2, 0.0); for i in 0..n { b[(i, i)] = 1.0; } b } _ => band(n, m1, m2, s) } }
+fn rhs_tri(n: usize, s: i64, sa: i64) -> T3 { if n == 0 { return T3::empty(); } match rhs_kind().as_str() {
+    "same" | "alias" => tri(n, sa), "zero" => T3::with_vecs(vec![0.0; n - 1], vec![0.0; n], vec![0.0; n - 1]), "eye" => T3::with_vecs(vec![0.0; n - 1], vec![1.0; n], vec![0.0; n - 1]), _ => tri(n, s) } }
+fn rhs_poly(len: usize, s: i64, sa: i64) -> Pl { match rhs_kind().as_str() {
+    "same" | "alias" => poly(len, sa), "zero" => Pl::new(vec![0.0; len]), "eye" => Pl::new((0..len).map(|k| if k == 0 { 1.0 } else { 0.0 }).collect()), _ => poly(len, s) } }
+
 impl P for Polynomial<Cmplx> { fn p(&self) -> Value { let mut xs = vec![]; for i in 0..self.size() { xs.push(self[i].real); xs.push(self[i].imag); } pj(&[self.size()], &xs) } }
 impl P for Result<(Pl, Pl), &'static str> { fn p(&self) -> Value { match self { Ok(qr) => qr.p(), Err(_) => pj(&[0], &[]) } } }
 impl P for Result<f64, f64> { fn p(&self) -> Value { match self { Ok(x) => pj(&[1], &[*x]), Err(x) => pj(&[0], &[*x]) } } }
@@ -133,18 +240,18 @@ macro_rules! tgt { ($rec:expr, $f:expr, $obj:expr, $call:expr) => {{
 
 // ------------------------------------------------------------------ the entry points, by group
 fn call_vec(rec: &mut Rec, op: &str, u: &[usize]) -> bool {
-    let a = vecf(u[0], 1);
+    let a = a_vec(u[0], 1);
     match op {
         "vec.add" | "vec.sub" => {
-            let b = vecf(u[1], 20); let add = op == "vec.add";
-            bref!(rec, "ref", [a, b], if add { &a + &b } else { &a - &b });
-            let a2 = a.clone(); bref!(rec, "mix", [b], if add { a2 + &b } else { a2 - &b });
+            let b = rhs_vec(&a, u[1], 20); let add = op == "vec.add"; let bb = if alias() { &a } else { &b };
+            bref!(rec, "ref", [a, bb], if add { &a + bb } else { &a - bb });
+            let a2 = a.clone(); bref!(rec, "mix", [bb], if add { a2 + bb } else { a2 - bb });
             own!(rec, "own", if add { a.clone() + b.clone() } else { a.clone() - b.clone() });
         }
-        "vec.add_assign" => { let b = vecf(u[1], 20); let mut x = a.clone(); own!(rec, "own", { x += b.clone(); x }); }
-        "vec.sub_assign" => { let b = vecf(u[1], 20); let mut x = a.clone(); own!(rec, "own", { x -= b.clone(); x }); }
-        "vec.dot" => { let b = vecf(u[1], 20); bref!(rec, "method", [a, b], a.dot(&b)); }
-        "vec.dot_f64" => { let b = vecf(u[1], 20); bref!(rec, "method", [a, b], a.dot_f64(&b)); }
+        "vec.add_assign" => { let b = rhs_vec(&a, u[1], 20); let mut x = a.clone(); own!(rec, "own", { x += b.clone(); x }); }
+        "vec.sub_assign" => { let b = rhs_vec(&a, u[1], 20); let mut x = a.clone(); own!(rec, "own", { x -= b.clone(); x }); }
+        "vec.dot" => { let b = rhs_vec(&a, u[1], 20); let bb = if alias() { &a } else { &b }; bref!(rec, "method", [a, bb], a.dot(bb)); }
+        "vec.dot_f64" => { let b = rhs_vec(&a, u[1], 20); let bb = if alias() { &a } else { &b }; bref!(rec, "method", [a, bb], a.dot_f64(bb)); }
         "vec.sum_slice" => bref!(rec, "method", [a], a.sum_slice(u[1], u[2])),
         "vec.product_slice" => bref!(rec, "method", [a], a.product_slice(u[1], u[2])),
         "vec.index_get" => bref!(rec, "method", [a], a[u[1]]),
@@ -169,21 +276,21 @@ fn call_vec(rec: &mut Rec, op: &str, u: &[usize]) -> bool {
 }
 
 fn call_mat(rec: &mut Rec, op: &str, u: &[usize]) -> bool {
-    let a = matf(u[0], u[1], 1);
+    let a = a_mat(u[0], u[1], 1, false);
     match op {
         "mat.add" | "mat.sub" => {
-            let b = matf(u[2], u[3], 40); let add = op == "mat.add";
-            bref!(rec, "ref", [a, b], if add { &a + &b } else { &a - &b });
+            let b = rhs_mat(u[2], u[3], 40, 1); let add = op == "mat.add"; let bb = if alias() { &a } else { &b };
+            bref!(rec, "ref", [a, bb], if add { &a + bb } else { &a - bb });
             own!(rec, "own", if add { a.clone() + b.clone() } else { a.clone() - b.clone() });
         }
         "mat.add_assign" | "mat.sub_assign" => {
-            let b = matf(u[2], u[3], 40); let add = op == "mat.add_assign";
-            let mut x = a.clone(); bref!(rec, "ref", [b], { if add { x += &b } else { x -= &b }; x });
+            let b = rhs_mat(u[2], u[3], 40, 1); let add = op == "mat.add_assign"; let bb = if alias() { &a } else { &b };
+            let mut x = a.clone(); bref!(rec, "ref", [bb], { if add { x += bb } else { x -= bb }; x });
             let mut y = a.clone(); own!(rec, "own", { if add { y += b.clone() } else { y -= b.clone() }; y });
         }
-        "mat.matmul" => { let b = matf(u[2], u[3], 40); bref!(rec, "ref", [a, b], &a * &b); own!(rec, "own", a.clone() * b.clone()); }
+        "mat.matmul" => { let b = rhs_mat(u[2], u[3], 40, 1); let bb = if alias() { &a } else { &b }; bref!(rec, "ref", [a, bb], &a * bb); own!(rec, "own", a.clone() * b.clone()); }
         "mat.matvec" => {
-            let v = vecf(u[2], 3);
+            let v = rhs_vec(&V::empty(), u[2], 3);
             bref!(rec, "ref", [a, v], &a * &v); own!(rec, "own", a.clone() * v.clone()); bref!(rec, "method", [a, v], a.multiply(&v));
         }
         "mat.get_row" => bref!(rec, "method", [a], a.get_row(u[2])),
@@ -194,14 +301,14 @@ fn call_mat(rec: &mut Rec, op: &str, u: &[usize]) -> bool {
         "mat.set_row" => { let mut x = a; tgt!(rec, "method", x, x.set_row(u[2], vecf(u[3], 70))); }
         "mat.set_col" => { let mut x = a; tgt!(rec, "method", x, x.set_col(u[2], vecf(u[3], 70))); }
         "mat.swap_rows" => { let mut x = a; tgt!(rec, "method", x, x.swap_rows(u[2], u[3])); }
-        "mat.solve_basic" => { let mut x = matdd(u[0], u[1]); let b = vecf(u[2], 1); bref!(rec, "method", [b], x.solve_basic(&b)); }
-        "mat.solve_lu" => { let mut x = matdd(u[0], u[1]); let b = vecf(u[2], 1); bref!(rec, "method", [b], x.solve_lu(&b)); }
-        "mat.lu_decomp_in_place" => { let mut x = matdd(u[0], u[1]); own!(rec, "method", { let r = x.lu_decomp_in_place(); (x, r) }); }
-        "mat.determinant" => { let x = matdd(u[0], u[1]); bref!(rec, "method", [x], x.determinant()); }
-        "mat.inverse" => { let x = matdd(u[0], u[1]); bref!(rec, "method", [x], x.inverse()); }
+        "mat.solve_basic" => { let mut x = a_mat(u[0], u[1], 1, true); let b = vecf(u[2], 1); bref!(rec, "method", [b], x.solve_basic(&b)); }
+        "mat.solve_lu" => { let mut x = a_mat(u[0], u[1], 1, true); let b = vecf(u[2], 1); bref!(rec, "method", [b], x.solve_lu(&b)); }
+        "mat.lu_decomp_in_place" => { let mut x = a_mat(u[0], u[1], 1, true); own!(rec, "method", { let r = x.lu_decomp_in_place(); (x, r) }); }
+        "mat.determinant" => { let x = a_mat(u[0], u[1], 1, true); bref!(rec, "method", [x], x.determinant()); }
+        "mat.inverse" => { let x = a_mat(u[0], u[1], 1, true); bref!(rec, "method", [x], x.inverse()); }
         "mat.neg" => { bref!(rec, "ref", [a], -&a); own!(rec, "own", -(a.clone())); }
-        "mat.mul_scalar" => { bref!(rec, "ref", [a], &a * 3.0); own!(rec, "own", a.clone() * 3.0); }
-        "mat.div_scalar" => { bref!(rec, "ref", [a], &a / 2.0); own!(rec, "own", a.clone() / 2.0); }
+        "mat.mul_scalar" => { let k = scal(3.0); bref!(rec, "ref", [a], &a * k); own!(rec, "own", a.clone() * k); }
+        "mat.div_scalar" => { let k = scal(2.0); bref!(rec, "ref", [a], &a / k); own!(rec, "own", a.clone() / k); }
         "mat.transpose" => bref!(rec, "method", [a], a.transpose()),
         "mat.norm_1" => bref!(rec, "method", [a], a.norm_1()),
         "mat.norm_inf" => bref!(rec, "method", [a], a.norm_inf()),
@@ -215,24 +322,24 @@ fn call_mat(rec: &mut Rec, op: &str, u: &[usize]) -> bool {
 }
 
 fn call_band(rec: &mut Rec, op: &str, u: &[usize], t: &[i64]) -> bool {
-    let a = band(u[0], u[1], u[2], 1);
+    let a = a_band(u[0], u[1], u[2], 1);
     match op {
         "band.add" | "band.sub" => {
-            let b = band(u[3], u[4], u[5], 5); let add = op == "band.add";
-            bref!(rec, "ref", [a, b], if add { &a + &b } else { &a - &b });
+            let b = rhs_band(u[3], u[4], u[5], 5, 1); let add = op == "band.add"; let bb = if alias() { &a } else { &b };
+            bref!(rec, "ref", [a, bb], if add { &a + bb } else { &a - bb });
             own!(rec, "own", if add { a.clone() + b.clone() } else { a.clone() - b.clone() });
         }
         "band.add_assign" | "band.sub_assign" => {
-            let b = band(u[3], u[4], u[5], 5); let add = op == "band.add_assign";
-            let mut x = a.clone(); bref!(rec, "ref", [b], { if add { x += &b } else { x -= &b }; x });
+            let b = rhs_band(u[3], u[4], u[5], 5, 1); let add = op == "band.add_assign"; let bb = if alias() { &a } else { &b };
+            let mut x = a.clone(); bref!(rec, "ref", [bb], { if add { x += bb } else { x -= bb }; x });
             let mut y = a.clone(); own!(rec, "own", { if add { y += b.clone() } else { y -= b.clone() }; y });
         }
-        "band.matvec" => { let v = vecf(u[3], 3); bref!(rec, "ref", [a, v], &a * &v); own!(rec, "own", a.clone() * v.clone()); }
+        "band.matvec" => { let v = rhs_vec(&V::empty(), u[3], 3); bref!(rec, "ref", [a, v], &a * &v); own!(rec, "own", a.clone() * v.clone()); }
         "band.solve" => { let v = vecf(u[3], 3); bref!(rec, "method", [a, v], a.solve(&v)); }
         "band.fill_band" => { let mut x = a; tgt!(rec, "method", x, x.fill_band(t[3] as isize, 99.0)); }
         "band.neg" => { bref!(rec, "ref", [a], -&a); own!(rec, "own", -(a.clone())); }
-        "band.mul_scalar" => { bref!(rec, "ref", [a], &a * 3.0); own!(rec, "own", a.clone() * 3.0); }
-        "band.div_scalar" => { bref!(rec, "ref", [a], &a / 2.0); own!(rec, "own", a.clone() / 2.0); }
+        "band.mul_scalar" => { let k = scal(3.0); bref!(rec, "ref", [a], &a * k); own!(rec, "own", a.clone() * k); }
+        "band.div_scalar" => { let k = scal(2.0); bref!(rec, "ref", [a], &a / k); own!(rec, "own", a.clone() / k); }
         "band.det" => bref!(rec, "method", [a], a.det()),
         "band.clone" => bref!(rec, "method", [a], a.clone()),
         _ => return false,
@@ -248,17 +355,17 @@ fn call_tri(rec: &mut Rec, op: &str, u: &[usize]) -> bool {
     match op {
         "tri.with_vectors" => own!(rec, "own", T3::with_vectors(vecf(u[0], 1), vecf(u[1], 20), vecf(u[2], 3))),
         "tri.with_vecs" => own!(rec, "own", T3::with_vecs(vecf(u[0], 1).vec, vecf(u[1], 20).vec, vecf(u[2], 3).vec)),
-        "tri.add" => own!(rec, "own", tri(u[0], 1) + tri(u[1], 5)),
-        "tri.sub" => own!(rec, "own", tri(u[0], 1) - tri(u[1], 5)),
-        "tri.matvec" => { let a = tri(u[0], 1); let v = vecf(u[1], 3); bref!(rec, "ref", [a, v], &a * &v); own!(rec, "own", a.clone() * v.clone()); }
-        "tri.solve" => { let a = tri(u[0], 1); let v = vecf(u[1], 3); bref!(rec, "method", [a, v], a.solve(&v)); }
-        "tri.index_get" => { let a = tri(u[0], 1); bref!(rec, "method", [a], a[(u[1], u[2])]); }
-        "tri.index_set" => { let mut a = tri(u[0], 1); tgt!(rec, "method", a, a[(u[1], u[2])] = 99.0); }
-        "tri.det" => { let a = tri(u[0], 1); bref!(rec, "method", [a], a.det()); }
-        "tri.convert" => { let a = tri(u[0], 1); bref!(rec, "method", [a], a.convert()); }
-        "tri.transpose" => { let a = tri(u[0], 1); bref!(rec, "method", [a], a.transpose()); }
+        "tri.add" => own!(rec, "own", a_tri(u[0], 1) + rhs_tri(u[1], 5, 1)),
+        "tri.sub" => own!(rec, "own", a_tri(u[0], 1) - rhs_tri(u[1], 5, 1)),
+        "tri.matvec" => { let a = a_tri(u[0], 1); let v = rhs_vec(&V::empty(), u[1], 3); bref!(rec, "ref", [a, v], &a * &v); own!(rec, "own", a.clone() * v.clone()); }
+        "tri.solve" => { let a = a_tri(u[0], 1); let v = vecf(u[1], 3); bref!(rec, "method", [a, v], a.solve(&v)); }
+        "tri.index_get" => { let a = a_tri(u[0], 1); bref!(rec, "method", [a], a[(u[1], u[2])]); }
+        "tri.index_set" => { let mut a = a_tri(u[0], 1); tgt!(rec, "method", a, a[(u[1], u[2])] = 99.0); }
+        "tri.det" => { let a = a_tri(u[0], 1); bref!(rec, "method", [a], a.det()); }
+        "tri.convert" => { let a = a_tri(u[0], 1); bref!(rec, "method", [a], a.convert()); }
+        "tri.transpose" => { let a = a_tri(u[0], 1); bref!(rec, "method", [a], a.transpose()); }
         "tri.conj" => { let a = ctri(u[0]); bref!(rec, "method", [a], a.conj()); }
-        "tri.clone" => { let a = tri(u[0], 1); bref!(rec, "method", [a], a.clone()); }
+        "tri.clone" => { let a = a_tri(u[0], 1); bref!(rec, "method", [a], a.clone()); }
         _ => return false,
     }
     true
@@ -274,12 +381,12 @@ fn call_sparse(rec: &mut Rec, op: &str, u: &[usize]) -> bool {
             ts.insert(ts.len() / 2, (u[2], u[3], 7.0));
             own!(rec, "own", S::from_triplets(r, c, &mut ts));
         }
-        "sparse.get" => { let a = sparse(r, c); bref!(rec, "method", [a], a.get(u[2], u[3])); }
-        "sparse.insert" => { let mut a = sparse(r, c); tgt!(rec, "method", a, a.insert(u[2], u[3], 99.0)); }
-        "sparse.multiply" => { let a = sparse(r, c); let v = vecf(u[2], 3); bref!(rec, "method", [a, v], a.multiply(&v)); }
-        "sparse.transpose_multiply" => { let a = sparse(r, c); let v = vecf(u[2], 3); bref!(rec, "method", [a, v], a.transpose_multiply(&v)); }
+        "sparse.get" => { let a = a_sparse(r, c); bref!(rec, "method", [a], a.get(u[2], u[3])); }
+        "sparse.insert" => { let mut a = a_sparse(r, c); tgt!(rec, "method", a, a.insert(u[2], u[3], 99.0)); }
+        "sparse.multiply" => { let a = a_sparse(r, c); let v = vecf(u[2], 3); bref!(rec, "method", [a, v], a.multiply(&v)); }
+        "sparse.transpose_multiply" => { let a = a_sparse(r, c); let v = vecf(u[2], 3); bref!(rec, "method", [a, v], a.transpose_multiply(&v)); }
         "sparse.solve_cg" | "sparse.solve_bicgstab" | "sparse.solve_qmr" | "sparse.solve_bicg" => {
-            let a = sparse(r, c); let b = vecf(u[2], 1); let mut x = V::new(u[3], 0.0);
+            let a = a_sparse(r, c); let b = vecf(u[2], 1); let mut x = V::new(u[3], 0.0);
             let itol = 1 + u[2] % 2;
             bref!(rec, "method", [a, b], { let res = match op {
                 "sparse.solve_cg" => a.solve_cg(&b, &mut x, 50, 1.0e-10),
@@ -287,10 +394,10 @@ fn call_sparse(rec: &mut Rec, op: &str, u: &[usize]) -> bool {
                 "sparse.solve_qmr" => a.solve_qmr(&b, &mut x, 50, 1.0e-10),
                 _ => a.solve_bicg(&b, &mut x, 50, 1.0e-10, itol) }; (res, x) });
         }
-        "sparse.col_index" => { let a = sparse(r, c); bref!(rec, "method", [a], a.col_index()); }
-        "sparse.to_triplets" => { let a = sparse(r, c); bref!(rec, "method", [a], a.to_triplets()); }
-        "sparse.to_dense" => { let a = sparse(r, c); bref!(rec, "method", [a], a.to_dense()); }
-        "sparse.transpose" => { let a = sparse(r, c); bref!(rec, "method", [a], a.transpose()); }
+        "sparse.col_index" => { let a = a_sparse(r, c); bref!(rec, "method", [a], a.col_index()); }
+        "sparse.to_triplets" => { let a = a_sparse(r, c); bref!(rec, "method", [a], a.to_triplets()); }
+        "sparse.to_dense" => { let a = a_sparse(r, c); bref!(rec, "method", [a], a.to_dense()); }
+        "sparse.transpose" => { let a = a_sparse(r, c); bref!(rec, "method", [a], a.transpose()); }
         _ => return false,
     }
     true
@@ -298,16 +405,16 @@ fn call_sparse(rec: &mut Rec, op: &str, u: &[usize]) -> bool {
 
 fn call_mesh(rec: &mut Rec, op: &str, u: &[usize]) -> bool {
     match op {
-        "mesh1.set_nodes_vars" => { let mut m = mesh1(u[0], u[1]); tgt!(rec, "method", m, m.set_nodes_vars(u[2], vecf(u[3], 70))); }
-        "mesh1.get_nodes_vars" => { let m = mesh1(u[0], u[1]); bref!(rec, "method", [m], m.get_nodes_vars(u[2])); }
+        "mesh1.set_nodes_vars" => { let mut m = a_mesh1(u[0], u[1]); tgt!(rec, "method", m, m.set_nodes_vars(u[2], vecf(u[3], 70))); }
+        "mesh1.get_nodes_vars" => { let m = a_mesh1(u[0], u[1]); bref!(rec, "method", [m], m.get_nodes_vars(u[2])); }
         "mesh2.set_nodes_vars" => { let mut m = mesh2(u[0], u[1], u[2]); tgt!(rec, "method", m, m.set_nodes_vars(u[3], u[4], vecf(u[5], 70))); }
         "mesh2.get_nodes_vars" => { let m = mesh2(u[0], u[1], 2); bref!(rec, "method", [m], m.get_nodes_vars(u[2], u[3])); }
         "mesh2.cross_section_xnode" => { let m = mesh2(u[0], u[1], 2); bref!(rec, "method", [m], m.cross_section_xnode(u[2])); }
         "mesh2.cross_section_ynode" => { let m = mesh2(u[0], u[1], 2); bref!(rec, "method", [m], m.cross_section_ynode(u[2])); }
         "mesh2.var_as_matrix" => { let m = mesh2(u[0], u[1], u[2]); bref!(rec, "method", [m], m.var_as_matrix(u[3])); }
-        "mesh1.get_interpolated_vars" => { let m = mesh1(u[0], u[1]); bref!(rec, "method", [m], m.get_interpolated_vars(0.5)); }
-        "mesh1.trapezium" => { let m = mesh1(u[0], u[1]); bref!(rec, "method", [m], m.trapezium(0)); }
-        "mesh1.nodes" => { let m = mesh1(u[0], u[1]); bref!(rec, "method", [m], m.nodes()); }
+        "mesh1.get_interpolated_vars" => { let m = a_mesh1(u[0], u[1]); bref!(rec, "method", [m], m.get_interpolated_vars(0.5)); }
+        "mesh1.trapezium" => { let m = a_mesh1(u[0], u[1]); bref!(rec, "method", [m], m.trapezium(0)); }
+        "mesh1.nodes" => { let m = a_mesh1(u[0], u[1]); bref!(rec, "method", [m], m.nodes()); }
         "mesh2.trapezium" => { let m = mesh2(u[0], u[1], 1); bref!(rec, "method", [m], m.trapezium(0)); }
         "mesh2.square_trapezium" => { let m = mesh2(u[0], u[1], 1); bref!(rec, "method", [m], m.square_trapezium(0)); }
         "mesh2.nodes" => { let m = mesh2(u[0], u[1], 1); bref!(rec, "method", [m], (m.xnodes(), m.ynodes())); }
@@ -317,17 +424,17 @@ fn call_mesh(rec: &mut Rec, op: &str, u: &[usize]) -> bool {
 }
 
 fn call_poly(rec: &mut Rec, op: &str, u: &[usize]) -> bool {
-    let p = poly(u[0], 1);
+    let p = a_poly(u[0], 1);
     match op {
         "poly.index_get" => bref!(rec, "method", [p], p[u[1]]),
         "poly.index_set" => { let mut x = p; tgt!(rec, "method", x, x[u[1]] = 99.0); }
         "poly.roots_f64" => bref!(rec, "method", [p], p.roots(u[0] % 2 == 0)),
         "poly.roots_cx" => { let z = Polynomial::<Cmplx>::new(cvec(u[0], 1).vec); bref!(rec, "method", [z], z.roots(u[0] % 2 == 1)); }
-        "poly.add" => { let q = poly(u[1], 9); bref!(rec, "ref", [p, q], &p + &q); own!(rec, "own", p.clone() + q.clone()); }
-        "poly.sub" => { let q = poly(u[1], 9); bref!(rec, "ref", [p, q], &p - &q); own!(rec, "own", p.clone() - q.clone()); }
-        "poly.mul" => { let q = poly(u[1], 9); bref!(rec, "ref", [p, q], &p * &q); own!(rec, "own", p.clone() * q.clone()); }
+        "poly.add" => { let q = rhs_poly(u[1], 9, 1); let qq = if alias() { &p } else { &q }; bref!(rec, "ref", [p, qq], &p + qq); own!(rec, "own", p.clone() + q.clone()); }
+        "poly.sub" => { let q = rhs_poly(u[1], 9, 1); let qq = if alias() { &p } else { &q }; bref!(rec, "ref", [p, qq], &p - qq); own!(rec, "own", p.clone() - q.clone()); }
+        "poly.mul" => { let q = rhs_poly(u[1], 9, 1); let qq = if alias() { &p } else { &q }; bref!(rec, "ref", [p, qq], &p * qq); own!(rec, "own", p.clone() * q.clone()); }
         "poly.neg" => { bref!(rec, "ref", [p], -&p); own!(rec, "own", -(p.clone())); }
-        "poly.mul_scalar" => { bref!(rec, "ref", [p], &p * 3.0); own!(rec, "own", p.clone() * 3.0); }
+        "poly.mul_scalar" => { let k = scal(3.0); bref!(rec, "ref", [p], &p * k); own!(rec, "own", p.clone() * k); }
         "poly.eval" => bref!(rec, "method", [p], p.eval(2.0)),
         "poly.derivative" => bref!(rec, "method", [p], p.derivative()),
         "poly.derivative_n" => bref!(rec, "method", [p], p.derivative_n(2.min(u[0].saturating_sub(1)))),
@@ -351,7 +458,8 @@ fn call_newton(rec: &mut Rec, op: &str, u: &[usize]) -> bool {
 }
 
 /// execute every form of group `g` on tuple `t`
-fn call(g: &str, t: &[i64]) -> Vec<Value> {
+fn call(g: &str, t: &[i64], c: Ctl) -> Vec<Value> {
+    *CTL.lock().unwrap() = Some(c);
     let u: Vec<usize> = t.iter().map(|x| if *x < 0 { usize::MAX / 4 } else { *x as usize }).collect();
     let mut rec = Rec { g: g.to_string(), forms: vec![] };
     let ok = match g.split('.').next().unwrap_or("") {
@@ -370,13 +478,16 @@ pub fn exec(case: &Value, out: &mut Out) {
             let g = gets(case, "op"); let t = ivec(&case["t"]);
             // a panic OUTSIDE the guarded calls (building or projecting a well-formed operand) is data too:
             // the event then carries no forms and the trace specification rejects it
-            match guarded(|| call(g, &t)) {
-                Ok(forms) => out.ev(json!({"op": "call", "g": g, "t": t, "accept": case["accept"], "forms": forms, "cid": cid})),
-                Err(msg) => out.ev(json!({"op": "call", "g": g, "t": t, "accept": case["accept"], "forms": [], "crash": msg, "cid": cid})),
+            let c = Ctl { prep: gets(case, "prep").to_string(), old: ivec(&case["old"]).iter().map(|x| *x as usize).collect(), rhs: gets(case, "rhs").to_string(),
+                          sc: case.get("sc").and_then(|v| v.as_u64()).unwrap_or(0) as usize, mixed: gets(case, "pat") == "mixed" };
+            let var = json!({"prep": case.get("prep").cloned().unwrap_or(json!("")), "old": case.get("old").cloned().unwrap_or(json!([])), "rhs": case.get("rhs").cloned().unwrap_or(json!("other")), "sc": c.sc, "pat": case.get("pat").cloned().unwrap_or(json!("plain"))});
+            match guarded(|| call(g, &t, c)) {
+                Ok(forms) => out.ev(json!({"op": "call", "g": g, "t": t, "accept": case["accept"], "forms": forms, "var": var, "cid": cid})),
+                Err(msg) => out.ev(json!({"op": "call", "g": g, "t": t, "accept": case["accept"], "forms": [], "crash": msg, "var": var, "cid": cid})),
             }
         }
         // the entry points executed so far by this process (the driver puts this case last)
-        "coverage" => { let seen: Vec<String> = SEEN.lock().unwrap().iter().cloned().collect(); out.ev(json!({"op": "coverage", "seen": seen, "cid": cid})); }
+        "coverage" => { let seen: Vec<String> = SEEN.lock().unwrap().iter().cloned().collect(); let preps: Vec<String> = PREPS.lock().unwrap().iter().cloned().collect(); out.ev(json!({"op": "coverage", "seen": seen, "preps": preps, "cid": cid})); }
         // a TLC-enumerated interleaving: create the value (id 1), clone it (id 2), then the mutations of either
         "clone" => {
             let mut steps = vec![json!({"act": "create", "oid": 1, "init": case["init"]}), json!({"act": "clone", "oid": 2, "src": 1})];
@@ -444,15 +555,19 @@ fn mutate(obj: &mut Obj, o: &Value, other: Option<&Obj>) {
     match obj {
         Obj::Vec(v) => match op { "set" => v[i] = x(), "push" => v.push(x()), "pop" => { v.pop(); } "swap" => v.swap(i, getu(o, "i2")),
             "scale" => *v *= s(), "shift" => *v += s(), "clear" => v.clear(),
+            "resize" => v.resize(getu(o, "nr")), "insert" => v.insert(i, x()),
             "add_obj" => { if let Some(Obj::Vec(w)) = other { *v += w.clone(); } else { bad_op("vec", op) } } _ => bad_op("vec", op) },
-        Obj::Poly(p) => match op { "set" => p[i] = x(), "push" => p.coeffs().push(x()), "pop" => { p.coeffs().pop(); } "scale" => { let q = &*p * s(); *p = q; } _ => bad_op("poly", op) },
+        Obj::Poly(p) => match op { "set" => p[i] = x(), "push" => p.coeffs().push(x()), "pop" => { p.coeffs().pop(); } "scale" => { let q = &*p * s(); *p = q; } "trim" => p.trim(), _ => bad_op("poly", op) },
         Obj::Mat(m) => match op { "add_obj" => { if let Some(Obj::Mat(w)) = other { *m += w; } else { bad_op("mat", op) } }
             _ => { if crate::suites::dense::step::<f64>(m, o).panic { panic!("dense step panicked"); } } },
         Obj::Band(b) => match op { "set" => b[(i, j)] = x(), "fill" => b.fill(x()), "fill_band" => b.fill_band(geti(o, "off") as isize, x()), "scale" => *b *= s(),
+            "resize_fill" => { b.resize(getu(o, "nr"), i, j); b.fill(x()); }
             "add_obj" => { if let Some(Obj::Band(w)) = other { *b += w; } else { bad_op("band", op) } } _ => bad_op("band", op) },
-        Obj::Tri(t) => match op { "set" => t[(i, j)] = x(), "transpose_in_place" => t.transpose_in_place(), "scale" => *t *= s(), "shift" => *t += s(), _ => bad_op("tri", op) },
+        Obj::Tri(t) => match op { "set" => t[(i, j)] = x(), "transpose_in_place" => t.transpose_in_place(), "scale" => *t *= s(), "shift" => *t += s(), "resize" => t.resize(getu(o, "nr")), _ => bad_op("tri", op) },
         Obj::Sparse(a) => match op { "set" => a.insert(i, j, x()), "scale" => a.scale(&s()), _ => bad_op("sparse", op) },
-        Obj::Mesh1(m) => match op { "set_row" => m.set_nodes_vars(i, f64vec_from(&o["v"])), "set" => m[i][j] = x(), _ => bad_op("mesh1", op) },
+        Obj::Mesh1(m) => match op { "set_row" => m.set_nodes_vars(i, f64vec_from(&o["v"])), "set" => m[i][j] = x(),
+            "read" => { let d = ivec(&o["b"]["d"]); let nv = getu(&o["b"], "c"); m.read(&mesh_file(getu(&o["b"], "r"), nv, &|k, v| d[k * nv + v])); }
+            _ => bad_op("mesh1", op) },
         Obj::Mesh2(m) => match op { "set_row" => m.set_nodes_vars(i, j, f64vec_from(&o["v"])), "fill" => m.assign(x()), _ => bad_op("mesh2", op) },
     }
 }
@@ -526,7 +641,7 @@ fn exec_session(case: &Value, out: &mut Out) {
 
 // ------------------------------------------------------------------ random workspace sessions
 #[derive(Clone)]
-struct Sh { k: &'static str, r: usize, c: usize, a: usize, b: usize }
+struct Sh { k: &'static str, r: usize, c: usize, a: usize, b: usize, d: Vec<i64> }   // d: coefficients (polynomials only: trim depends on them)
 fn rv(rng: &mut rand::rngs::StdRng) -> i64 { rng.gen_range(-9..=9) }
 fn rand_init(rng: &mut rand::rngs::StdRng) -> (Value, Sh) {
     let kinds = ["vec", "poly", "mat", "band", "tri", "sparse", "mesh1", "mesh2"]; let k = kinds[rng.gen_range(0..8)];
@@ -538,7 +653,8 @@ fn rand_init(rng: &mut rand::rngs::StdRng) -> (Value, Sh) {
     for i in 0..r { for j in 0..c {
         let inb = match k { "band" => j <= i + b && i <= j + a, "tri" => i <= j + 1 && j <= i + 1, "sparse" => rng.gen_bool(0.5), _ => true };
         d.push(if inb { rv(rng) } else { 0 }); } }
-    (jval(k, r, c, d, a, b), Sh { k, r, c, a, b })
+    let dd = if k == "poly" { d.clone() } else { vec![] };
+    (jval(k, r, c, d, a, b), Sh { k, r, c, a, b, d: dd })
 }
 /// one random in-range mutation of an object of shape `sh` (peers: ids of same-shaped objects of the same kind)
 fn rand_mut(rng: &mut rand::rngs::StdRng, sh: &mut Sh, peers: &[i64], adds: &mut u32) -> Option<Value> {
@@ -546,12 +662,14 @@ fn rand_mut(rng: &mut rand::rngs::StdRng, sh: &mut Sh, peers: &[i64], adds: &mut
     let add_obj = |rng: &mut rand::rngs::StdRng, adds: &mut u32| -> Option<Value> { if peers.is_empty() || *adds >= 6 { None } else { *adds += 1; Some(json!({"op": "add_obj", "src": peers[rng.gen_range(0..peers.len())]})) } };
     match sh.k {
         "vec" | "poly" => match pick {
-            0 | 1 => { sh.r += 1; Some(json!({"op": "push", "x": rv(rng)})) }
-            2 => { if r == 0 { return None; } sh.r -= 1; Some(json!({"op": "pop"})) }
-            3 | 4 => { if r == 0 { return None; } Some(json!({"op": "set", "i": rng.gen_range(0..r), "x": rv(rng)})) }
-            5 => Some(json!({"op": "scale", "s": -1})),
+            0 | 1 => { sh.r += 1; let x = if sh.k == "poly" && rng.gen_bool(0.5) { 0 } else { rv(rng) }; if sh.k == "poly" { sh.d.push(x); } Some(json!({"op": "push", "x": x})) }
+            2 => { if r == 0 { return None; } sh.r -= 1; sh.d.pop(); Some(json!({"op": "pop"})) }
+            3 | 4 => { if r == 0 { return None; } let (i, x) = (rng.gen_range(0..r), if rng.gen_bool(0.3) { 0 } else { rv(rng) }); if sh.k == "poly" { sh.d[i] = x; } Some(json!({"op": "set", "i": i, "x": x})) }
+            5 => { for x in sh.d.iter_mut() { *x = -*x; } Some(json!({"op": "scale", "s": -1})) }
             6 => { if sh.k == "poly" || r == 0 { return None; } if rng.gen_bool(0.5) { Some(json!({"op": "swap", "i": rng.gen_range(0..r), "i2": rng.gen_range(0..r)})) } else { Some(json!({"op": "shift", "s": rv(rng)})) } }
-            _ => { if sh.k == "poly" { return None; } if rng.gen_bool(0.1) { sh.r = 0; Some(json!({"op": "clear"})) } else { add_obj(rng, adds) } } },
+            _ => { if sh.k == "poly" { if r == 0 { return None; } while sh.d.len() > 1 && *sh.d.last().unwrap() == 0 { sh.d.pop(); } sh.r = sh.d.len(); return Some(json!({"op": "trim"})); }
+                   match rng.gen_range(0..4) { 0 => { sh.r = 0; Some(json!({"op": "clear"})) } 1 => { sh.r = rng.gen_range(0..=5); Some(json!({"op": "resize", "nr": sh.r})) }
+                       2 => { sh.r += 1; Some(json!({"op": "insert", "i": rng.gen_range(0..=r), "x": rv(rng)})) } _ => add_obj(rng, adds) } } },
         "mat" => match pick {
             0 => { if r * c == 0 { return None; } Some(json!({"op": "set", "i": rng.gen_range(0..r), "j": rng.gen_range(0..c), "x": rv(rng)})) }
             1 => { if r == 0 { return None; } Some(json!({"op": "set_row", "i": rng.gen_range(0..r), "v": (0..c).map(|_| rv(rng)).collect::<Vec<i64>>()})) }
@@ -559,21 +677,26 @@ fn rand_mut(rng: &mut rand::rngs::StdRng, sh: &mut Sh, peers: &[i64], adds: &mut
             3 => { std::mem::swap(&mut sh.r, &mut sh.c); Some(json!({"op": "transpose_in_place"})) }
             4 => { if rng.gen_bool(0.5) { Some(json!({"op": "mul_assign", "s": -1})) } else { Some(json!({"op": "add_scalar_assign", "s": rv(rng)})) } }
             5 => { if r == 0 { return None; } if rng.gen_bool(0.5) { Some(json!({"op": "swap_rows", "i": rng.gen_range(0..r), "i2": rng.gen_range(0..r)})) } else { Some(json!({"op": "fill_row", "i": rng.gen_range(0..r), "x": rv(rng)})) } }
-            6 => { if rng.gen_bool(0.5) { sh.r = rng.gen_range(0..=4); sh.c = rng.gen_range(0..=4); Some(json!({"op": "resize", "nr": sh.r, "nc": sh.c})) } else { Some(json!({"op": "fill_band", "off": rng.gen_range(-2..=2), "x": rv(rng)})) } }
+            6 => { let q = rng.gen_range(0..4);
+                   if q == 0 && r > 0 { sh.r -= 1; Some(json!({"op": "delete_row", "i": rng.gen_range(0..r)})) }
+                   else if q == 1 && rng.gen_bool(0.3) { sh.r = 0; sh.c = 0; Some(json!({"op": "clear"})) }
+                   else if q < 3 { sh.r = rng.gen_range(0..=4); sh.c = rng.gen_range(0..=4); Some(json!({"op": "resize", "nr": sh.r, "nc": sh.c})) } else { Some(json!({"op": "fill_band", "off": rng.gen_range(-2..=2), "x": rv(rng)})) } }
             _ => add_obj(rng, adds) },
         "band" => match pick {
             0 | 1 => { let i = rng.gen_range(0..r); let lo = i.saturating_sub(sh.a); let hi = (i + sh.b).min(r - 1); Some(json!({"op": "set", "i": i, "j": rng.gen_range(lo..=hi), "x": rv(rng)})) }
             2 => Some(json!({"op": "fill", "x": rv(rng)})),
             3 | 4 => Some(json!({"op": "fill_band", "off": rng.gen_range(-(sh.a as i64)..=(sh.b as i64)), "x": rv(rng)})),
             5 => Some(json!({"op": "scale", "s": -1})),
+            6 => { let n = rng.gen_range(1..=4usize); sh.r = n; sh.c = n; sh.a = rng.gen_range(0..n); sh.b = rng.gen_range(0..n); Some(json!({"op": "resize_fill", "nr": n, "i": sh.a, "j": sh.b, "x": rv(rng)})) }
             _ => add_obj(rng, adds) },
         "tri" => match pick {
             0 | 1 | 2 => { let i = rng.gen_range(0..r); let lo = i.saturating_sub(1); let hi = (i + 1).min(r - 1); Some(json!({"op": "set", "i": i, "j": rng.gen_range(lo..=hi), "x": rv(rng)})) }
             3 | 4 => Some(json!({"op": "transpose_in_place"})),
             5 => Some(json!({"op": "scale", "s": -1})),
+            6 => { let n = rng.gen_range(1..=4usize); sh.r = n; sh.c = n; Some(json!({"op": "resize", "nr": n})) }
             _ => Some(json!({"op": "shift", "s": rv(rng)})) },
         "sparse" => if pick < 6 { Some(json!({"op": "set", "i": rng.gen_range(0..r), "j": rng.gen_range(0..c), "x": rv(rng)})) } else { { let sc = [-1i64, 0, 1][rng.gen_range(0..3)]; Some(json!({"op": "scale", "s": sc})) } },
-        "mesh1" => if pick < 4 { Some(json!({"op": "set_row", "i": rng.gen_range(0..r), "v": (0..c).map(|_| rv(rng)).collect::<Vec<i64>>()})) } else { Some(json!({"op": "set", "i": rng.gen_range(0..r), "j": rng.gen_range(0..c), "x": rv(rng)})) },
+        "mesh1" => if pick == 7 { let nn = rng.gen_range(1..=5usize); sh.r = nn; Some(json!({"op": "read", "b": {"r": nn, "c": c, "d": (0..nn * c).map(|_| rv(rng)).collect::<Vec<i64>>()}})) } else if pick < 4 { Some(json!({"op": "set_row", "i": rng.gen_range(0..r), "v": (0..c).map(|_| rv(rng)).collect::<Vec<i64>>()})) } else { Some(json!({"op": "set", "i": rng.gen_range(0..r), "j": rng.gen_range(0..c), "x": rv(rng)})) },
         _ => if pick < 6 { Some(json!({"op": "set_row", "i": rng.gen_range(0..sh.a), "j": rng.gen_range(0..sh.b), "v": (0..c).map(|_| rv(rng)).collect::<Vec<i64>>()})) } else { Some(json!({"op": "fill", "x": rv(rng)})) },
     }
 }
@@ -581,15 +704,15 @@ fn rand_mut(rng: &mut rand::rngs::StdRng, sh: &mut Sh, peers: &[i64], adds: &mut
 fn rand_conv(rng: &mut rand::rngs::StdRng, sh: &Sh, derivs: &mut u32) -> Option<(Value, Sh)> {
     let (r, c) = (sh.r, sh.c);
     match sh.k {
-        "tri" => if rng.gen_bool(0.5) { Some((json!({"op": "tri.convert"}), Sh { k: "mat", r, c, a: 0, b: 0 })) } else { Some((json!({"op": "tri.transpose"}), sh.clone())) },
-        "sparse" => if rng.gen_bool(0.5) { Some((json!({"op": "sparse.to_dense"}), Sh { k: "mat", r, c, a: 0, b: 0 })) } else { Some((json!({"op": "sparse.transpose"}), Sh { k: "sparse", r: c, c: r, a: 0, b: 0 })) },
-        "mat" => if r > 0 && rng.gen_bool(0.5) { Some((json!({"op": "mat.get_row", "i": rng.gen_range(0..r)}), Sh { k: "vec", r: c, c: 1, a: 0, b: 0 })) } else { Some((json!({"op": "mat.transpose"}), Sh { k: "mat", r: c, c: r, a: 0, b: 0 })) },
-        "mesh1" => Some((json!({"op": "mesh1.get_nodes_vars", "i": rng.gen_range(0..r)}), Sh { k: "vec", r: c, c: 1, a: 0, b: 0 })),
+        "tri" => if rng.gen_bool(0.5) { Some((json!({"op": "tri.convert"}), Sh { k: "mat", r, c, a: 0, b: 0, d: vec![] })) } else { Some((json!({"op": "tri.transpose"}), sh.clone())) },
+        "sparse" => if rng.gen_bool(0.5) { Some((json!({"op": "sparse.to_dense"}), Sh { k: "mat", r, c, a: 0, b: 0, d: vec![] })) } else { Some((json!({"op": "sparse.transpose"}), Sh { k: "sparse", r: c, c: r, a: 0, b: 0, d: vec![] })) },
+        "mat" => if r > 0 && rng.gen_bool(0.5) { Some((json!({"op": "mat.get_row", "i": rng.gen_range(0..r)}), Sh { k: "vec", r: c, c: 1, a: 0, b: 0, d: vec![] })) } else { Some((json!({"op": "mat.transpose"}), Sh { k: "mat", r: c, c: r, a: 0, b: 0, d: vec![] })) },
+        "mesh1" => Some((json!({"op": "mesh1.get_nodes_vars", "i": rng.gen_range(0..r)}), Sh { k: "vec", r: c, c: 1, a: 0, b: 0, d: vec![] })),
         "mesh2" => match rng.gen_range(0..3) {
-            0 => Some((json!({"op": "mesh2.cross_section_xnode", "i": rng.gen_range(0..sh.a)}), Sh { k: "mesh1", r: sh.b, c, a: 0, b: 0 })),
-            1 => Some((json!({"op": "mesh2.cross_section_ynode", "j": rng.gen_range(0..sh.b)}), Sh { k: "mesh1", r: sh.a, c, a: 0, b: 0 })),
-            _ => Some((json!({"op": "mesh2.var_as_matrix", "i": rng.gen_range(0..c)}), Sh { k: "mat", r: sh.a, c: sh.b, a: 0, b: 0 })) },
-        "poly" => { if r == 0 || *derivs >= 3 { return None; } *derivs += 1; Some((json!({"op": "poly.derivative"}), Sh { k: "poly", r: r - 1, c: 1, a: 0, b: 0 })) }
+            0 => Some((json!({"op": "mesh2.cross_section_xnode", "i": rng.gen_range(0..sh.a)}), Sh { k: "mesh1", r: sh.b, c, a: 0, b: 0, d: vec![] })),
+            1 => Some((json!({"op": "mesh2.cross_section_ynode", "j": rng.gen_range(0..sh.b)}), Sh { k: "mesh1", r: sh.a, c, a: 0, b: 0, d: vec![] })),
+            _ => Some((json!({"op": "mesh2.var_as_matrix", "i": rng.gen_range(0..c)}), Sh { k: "mat", r: sh.a, c: sh.b, a: 0, b: 0, d: vec![] })) },
+        "poly" => { if r == 0 || *derivs >= 3 { return None; } *derivs += 1; let d: Vec<i64> = (1..r).map(|i| i as i64 * sh.d[i]).collect(); Some((json!({"op": "poly.derivative"}), Sh { k: "poly", r: r - 1, c: 1, a: 0, b: 0, d })) }
         _ => None,
     }
 }
